@@ -152,7 +152,11 @@ impl LazyKnownValues {
     /// This method guarantees that initialization occurs exactly once,
     /// even when called from multiple threads simultaneously.
     pub fn get(&self) -> std::sync::MutexGuard<'_, Option<KnownValuesStore>> {
+        #[cfg(feature = "verif_hooks")]
+        crate::verif_hooks::point("known_values.get.enter");
         self.init.call_once(|| {
+            #[cfg(feature = "verif_hooks")]
+            crate::verif_hooks::point("known_values.init.begin");
             let m = KnownValuesStore::new([
                 IS_A,
                 ID,
@@ -238,7 +242,11 @@ impl LazyKnownValues {
                 OUTPUT_DESCRIPTOR_TYPE,
             ]);
             *self.data.lock().unwrap() = Some(m);
+            #[cfg(feature = "verif_hooks")]
+            crate::verif_hooks::point("known_values.init.end");
         });
+        #[cfg(feature = "verif_hooks")]
+        crate::verif_hooks::point("known_values.get.before_lock");
         self.data.lock().unwrap()
     }
 }
